@@ -28,18 +28,20 @@ def _accepts(fn, *a):
 
 
 
-def requires_value_matches_reference(opt: bool, en: bool, has_opt: bool, has_dep: bool, dep_opt: bool, dep_en: bool,
+def requires_value_matches_reference(opt: bool, en: bool, has_opt: bool, has_dep: bool, dep_opt_state: int, dep_en: bool,
                                      dep_val: bool, dtype_enabled: bool, has_group: bool, gopt: bool, gen: bool) -> bool:
     """
+    pre: 0 <= dep_opt_state < 3
     post: _
     """
+    dep_opt = dep_opt_state == 2          # 0: no 'optional' member, 1: explicit False, 2: True
     form = {"label": "a", "value": 1}
     if has_opt:
         form["optional"] = opt
         form["enabled"] = en
     dep = {"label": "d", "value": dep_val}
-    if dep_opt:
-        dep["optional"] = True
+    if dep_opt_state:
+        dep["optional"] = dep_opt
         dep["enabled"] = dep_en
     if has_dep:
         form["dependency"] = "d"
@@ -67,18 +69,20 @@ def requires_value_matches_reference(opt: bool, en: bool, has_opt: bool, has_dep
         exp = True
     return bool(got) == bool(exp)
 
-def requires_value_matches_reference__reach(opt: bool, en: bool, has_opt: bool, has_dep: bool, dep_opt: bool, dep_en: bool,
+def requires_value_matches_reference__reach(opt: bool, en: bool, has_opt: bool, has_dep: bool, dep_opt_state: int, dep_en: bool,
                                      dep_val: bool, dtype_enabled: bool, has_group: bool, gopt: bool, gen: bool) -> bool:
     """
+    pre: 0 <= dep_opt_state < 3
     post: False
     """
+    dep_opt = dep_opt_state == 2          # 0: no 'optional' member, 1: explicit False, 2: True
     form = {"label": "a", "value": 1}
     if has_opt:
         form["optional"] = opt
         form["enabled"] = en
     dep = {"label": "d", "value": dep_val}
-    if dep_opt:
-        dep["optional"] = True
+    if dep_opt_state:
+        dep["optional"] = dep_opt
         dep["enabled"] = dep_en
     if has_dep:
         form["dependency"] = "d"
